@@ -7,7 +7,7 @@ iterations of the tag loop).
 -- models: pkg/kgo/broker.go:brokerCxn.readConn
 -- models: pkg/kgo/broker.go:brokerCxn.parseReadSize
 -- models: pkg/kgo/broker.go:brokerCxn.readResponse
--- models: pkg/kmsg/api.go:SkipTags
+-- models: pkg/kmsg/api.go:SkipTags (with the `&& ok()` exit of the C22 repair)
 -- models: pkg/kbin/primitives.go:Uvarint -/
 namespace Model.C22Frame
 
@@ -91,20 +91,27 @@ def skipIter (r : Rd) : Rd :=
   let (size, r2) := rdUvarint r1
   rdSpan r2 size
 
-/-- the loop runs `num` times whatever the reader's state is (the code has no exit on a failed reader) -/
-def skipLoop : Nat → Rd → Rd
-  | 0, r => r
-  | n + 1, r => skipLoop n (skipIter r)
+/-- `for num := b.Uvarint(); num > 0 && b.Ok(); num-- { … }` (SkipTags / ReadTags / internalReadTags after the repair
+of C22.tag-count-unbounded-loop): stops once the reader has failed. Returns the reader and the iterations run. -/
+def skipLoop : Nat → Rd → Rd × Nat
+  | 0, r => (r, 0)
+  | n + 1, r =>
+    if r.bad then (r, 0) else
+    let p := skipLoop n (skipIter r)
+    (p.1, p.2 + 1)
 
-/-- what the driver executes: stops once the reader has failed (proved equal to `skipLoop`, Proof.C22Frame) -/
-def skipLoopFast : Nat → Rd → Rd
-  | 0, r => r
-  | n + 1, r => if r.bad && r.src.isEmpty then r else skipLoopFast n (skipIter r)
+/-- the loop as it was before the repair (`num > 0` only): it runs `num` times whatever the reader's state is. Kept
+for the record of the defect (`Props.C22.unrepaired_tag_loop_not_linear`); not what the code does any more. -/
+def skipLoopUnbounded : Nat → Rd → Rd × Nat
+  | 0, r => (r, 0)
+  | n + 1, r =>
+    let p := skipLoopUnbounded n (skipIter r)
+    (p.1, p.2 + 1)
 
 /-- `parseFrame` with the tag loop as a parameter. `maxRead` = BrokerMaxReadBytes, `corr` the correlation id of the
 oldest outstanding request, `flex` whether its response header is flexible, `closed` whether the peer has closed
 after `stream`. -/
-def parseFrameWith (loop : Nat → Rd → Rd) (maxRead corr : Nat) (flex closed : Bool) (stream : Bytes) : Out :=
+def parseFrameWith (loop : Nat → Rd → Rd × Nat) (maxRead corr : Nat) (flex closed : Bool) (stream : Bytes) : Out :=
   match u32? stream with
   | none => ⟨if closed then .eof else .needMore, [], stream.length⟩    -- io.ReadFull(conn, sizeBuf)
   | some sz =>
@@ -132,12 +139,14 @@ def parseFrameWith (loop : Nat → Rd → Rd) (maxRead corr : Nat) (flex closed 
                 | some body =>
                   if flex then
                     let (num, r1) := rdUvarint ⟨body, false⟩
-                    let r := loop num r1
-                    ⟨if r.bad then .short else .deliver r.src, rest, 4 + n + num⟩
+                    let p := loop num r1
+                    ⟨if p.1.bad then .short else .deliver p.1.src, rest, 4 + n + p.2⟩
                   else ⟨.deliver body, rest, 4 + n⟩
 
 def parseFrame := parseFrameWith skipLoop
-def parseFrameFast := parseFrameWith skipLoopFast
+
+/-- the parser with the tag loop as it was before the repair -/
+def parseFrameUnrepaired := parseFrameWith skipLoopUnbounded
 
 /-- number of tag-loop iterations a flexible header announces (0 when there is none) -/
 def tagCount (frame : Bytes) : Nat := (rdUvarint ⟨frame.drop 8, false⟩).1
